@@ -56,7 +56,7 @@ class SyncIqProtocolEntity(IqProtocolEntity):
         entity.setSyncProps(
             syncNode.getAttributeValue("sid"),
             syncNode.getAttributeValue("index"),
-            syncNode.getAttributeValue("last")
+            syncNode.getAttributeValue("last") == "true"
             )
 
 
